@@ -539,16 +539,20 @@ class Ops:
             n = simp(z3.Length(items))
             if z3.is_int_value(n):
                 return z3.Or(*[pyeq(x, simp(items[j])) for j in range(n.as_long())]) if n.as_long() else z3.BoolVal(False)
-            j = it.fresh('j', IntS)
             # exact for elements compared structurally; numeric cross-kind equality handled by pyeq
             jj = z3.Int('j!in')
             return z3.Exists([jj], z3.And(0 <= jj, jj < z3.Length(items), pyeq(x, items[jj])))
         if k == 2:
-            if ctor(it.refine(x)) == 'StrV':
-                self.world.lazy_instantiate(it, c, it.refine(x).arg(0))
-            return z3.And(V.is_StrV(x), z3.Select(V.dhas(c), V.s(x)))
+            if nonstring_keys(it, cont):
+                item = it.split_kind(item)
+            x = it.refine(item.t)
+            if ctor(it.refine(x)) in ('StrV', 'ObjV'):
+                self.world.lazy_instantiate(it, c, vals.ks(it.refine(x)))
+            it.assume_axiom(vals.key_axiom(x))
+            return z3.And(vals.is_key(x), z3.Select(V.dhas(c), vals.ks(x)))
         if k == 3:
-            return z3.And(V.is_StrV(x), z3.Select(V.selems(c), V.s(x)))
+            it.assume_axiom(vals.key_axiom(x))
+            return z3.And(vals.is_key(x), z3.Select(V.selems(c), vals.ks(x)))
         if it.feasible(V.is_ObjV(c)):
             raise Unsupported('membership test on object')
         it.raise_('TypeError')
@@ -581,12 +585,16 @@ class Ops:
         if k == 1:
             if obj.ty and obj.ty.startswith('enumdict'):
                 return self.world.calls.enum_getitem(it, obj, idx)
-            if ctor(it.refine(i)) == 'StrV':
-                self.world.lazy_instantiate(it, c, it.refine(i).arg(0))
+            if nonstring_keys(it, obj):
+                idx = it.split_kind(idx)
+            i = it.refine(idx.t)
+            if ctor(it.refine(i)) in ('StrV', 'ObjV'):
+                self.world.lazy_instantiate(it, c, vals.ks(it.refine(i)))
             self.outcome(it, [(z3.Not(_hashable(i)), 'TypeError'),
-                              (z3.And(_hashable(i), z3.Not(z3.And(V.is_StrV(i), z3.Select(V.dhas(c), V.s(i))))), 'KeyError'),
-                              (z3.And(V.is_StrV(i), z3.Select(V.dhas(c), V.s(i))), None)], 'key')
-            el = simp(z3.Select(V.dmap(c), V.s(i)))
+                              (z3.And(_hashable(i), z3.Not(z3.And(vals.is_key(i), z3.Select(V.dhas(c), vals.ks(i))))), 'KeyError'),
+                              (z3.And(vals.is_key(i), z3.Select(V.dhas(c), vals.ks(i))), None)], 'key')
+            it.assume_axiom(vals.key_axiom(i))
+            el = simp(z3.Select(V.dmap(c), vals.ks(it.refine(i))))
             self.world.element_kind(it, el, elty)
             return SV(el, elty)
         if k == 2:
@@ -643,9 +651,10 @@ class Ops:
             if obj.ty == 'ImmutableDict':
                 it.raise_('TypeError')
             self.outcome(it, [(z3.Not(_hashable(i)), 'TypeError'), (_hashable(i), None)], 'setitem key')
-            if it.feasible(z3.Not(V.is_StrV(i))):
-                raise Unsupported('dict with non-string key (A4)')
-            return SV(dict_store(c, V.s(i), it.as_val(v)), obj.ty, obj.src)
+            if it.feasible(z3.Not(vals.is_key(i))):
+                raise Unsupported('dict key that is neither a string nor an object (A4)')
+            it.assume_axiom(vals.key_axiom(i))
+            return SV(dict_store(c, it.refine(i), it.as_val(v)), obj.ty, obj.src)
         if k == 1:
             n = z3.Length(V.litems(c))
             ii = ival(i)
@@ -664,9 +673,9 @@ class Ops:
         c, i = obj.t, idx.t
         if it.feasible(z3.Not(V.is_DictV(c))):
             raise Unsupported('del on non-dict')
-        present = z3.And(V.is_StrV(i), z3.Select(V.dhas(c), V.s(i)))
+        present = z3.And(vals.is_key(i), z3.Select(V.dhas(c), vals.ks(i)))
         self.outcome(it, [(z3.Not(present), 'KeyError'), (present, None)], 'delitem')
-        return SV(dict_remove(it, c, V.s(i)), obj.ty, obj.src)
+        return SV(dict_remove(it, c, vals.ks(i)), obj.ty, obj.src)
 
     def unpack(self, it, v, n):
         if isinstance(v, PV):
@@ -729,22 +738,40 @@ class Ops:
         return self.world.calls.with_exit(it, cm, tok)
 
 
+def nonstring_keys(it, cont):
+    """the container is declared (static type `dict[obj]:T`, `set[obj]`, `dict[int]:T`) or visibly built with keys
+    that are not strings: then the kind of a looked-up key matters and is split; otherwise keys are strings (A4)"""
+    if cont.ty and ('[obj]' in cont.ty.split(':', 1)[0] or '[int]' in cont.ty.split(':', 1)[0]):
+        return True
+    c = it.refine(cont.t)
+    if ctor(c) == 'DictV':
+        try:
+            from .vc import seq_elems
+            return any(ctor(simp(e)) in ('IntV', 'ObjV') for e in seq_elems(c.arg(0)))
+        except Exception:
+            return False
+    return False
+
+
 def _hashable(i):
     return z3.Not(z3.Or(V.is_ListV(i), V.is_DictV(i), V.is_SetV(i)))
 
 
 def _elem_type(ty):
     """static element type of a typed container: 'dict:T', 'list:T', 'tuple:T', 'seq:T'"""
-    if ty and ':' in ty and ty.split(':', 1)[0] in ('dict', 'list', 'tuple', 'seq', 'enumdict'):
+    if ty and ':' in ty and ty.split(':', 1)[0].split('[', 1)[0] in ('dict', 'list', 'tuple', 'seq', 'enumdict'):
         return ty.split(':', 1)[1]
     return None
 
 
-def dict_store(c, key, val):
-    """d[key] = val (insertion order kept; new key appended)"""
+def dict_store(c, keyval, val):
+    """d[key] = val (insertion order kept; new key appended); keyval: the key as a Val (string or object) or a z3 String"""
+    if keyval.sort() != Val:
+        keyval = V.StrV(keyval)
+    key = vals.ks(keyval)
     has = V.dhas(c)
     present = z3.Select(has, key)
-    keys = z3.If(present, V.dkeys(c), z3.Concat(V.dkeys(c), z3.Unit(V.StrV(key))))
+    keys = z3.If(present, V.dkeys(c), z3.Concat(V.dkeys(c), z3.Unit(keyval)))
     return V.DictV(keys, z3.Store(has, key, z3.BoolVal(True)), z3.Store(V.dmap(c), key, val))
 
 
@@ -756,5 +783,5 @@ def dict_remove(it, c, key):
     # the remaining keys keep their order; only their membership is specified
     it.assume(z3.Length(keys) == z3.Length(old) - 1)
     it.assume(z3.ForAll([i], z3.Implies(z3.And(0 <= i, i < z3.Length(keys)),
-                                        z3.And(V.is_StrV(keys[i]), z3.Select(has, V.s(keys[i]))))))
+                                        z3.And(vals.is_key(keys[i]), z3.Select(has, vals.ks(keys[i]))))))
     return V.DictV(keys, has, z3.Store(V.dmap(c), key, V.NoneV))
